@@ -211,7 +211,8 @@ give (in order), `pushed` logs the handles handed over. -/
 
 structure HChan where
   refs : List (Except Err Int) := []
-  pushed : List Int := []
+  /-- (handle value, reference the writer returned for it), in push order -/
+  pushed : List (Int × Int) := []
   deriving Inhabited
 
 abbrev E (α : Type) := HChan → Except Err (α × HChan)
@@ -233,6 +234,16 @@ def encAll {α} (f : α → HChan → Except Err (Bytes × HChan)) : List α →
       | .ok (bs, h'') => .ok (b ++ bs, h'')
       | .error e => .error e
     | .error e => .error e
+
+/-- encode one map entry `(l k v)`: key then mapped value -/
+def pairEnc (fk fv : Val → HChan → Except Err (Bytes × HChan)) (kv : Val) (h : HChan) :
+    Except Err (Bytes × HChan) :=
+  match fk (kvKey kv) h with
+  | .ok (a, h') =>
+    match fv (kvVal kv) h' with
+    | .ok (b, h'') => .ok (a ++ b, h'')
+    | .error err => .error err
+  | .error err => .error err
 
 def sumMap {α} (f : α → Nat) : List α → Nat
   | [] => 0
@@ -306,13 +317,7 @@ def encode : Ty → Val → HChan → Except Err (Bytes × HChan)
     | .ok (bs, h') => .ok ((if k == .struct then 0xb9 else 0xba) :: encSize ts.length ++ bs, h')
     | .error err => .error err
   | .map _ k v, .list kvs, h =>
-    match encAll (fun kv h =>
-        match encode k (kvKey kv) h with
-        | .ok (a, h') =>
-          match encode v (kvVal kv) h' with
-          | .ok (b, h'') => .ok (a ++ b, h'')
-          | .error err => .error err
-        | .error err => .error err) kvs h with
+    match encAll (pairEnc (encode k) (encode v)) kvs h with
     | .ok (bs, h') => .ok (0xbb :: encSize kvs.length ++ bs, h')
     | .error err => .error err
   | .opt _, .nil, h => .ok ([0xbe], h)
@@ -330,7 +335,9 @@ def encode : Ty → Val → HChan → Except Err (Bytes × HChan)
     | [] => .error .invalidHandleValue
     | .error err :: _ => .error err
     | .ok r :: rest =>
-      .ok (0xb7 :: encInt tk ht ++ encInt .i64 r, { refs := rest, pushed := h.pushed ++ [hv] })
+      -- HandleReference is std::int64_t: a writer cannot return anything else
+      if !IntKind.i64.inRange r then .error .invalidHandleReference else
+      .ok (0xb7 :: encInt tk ht ++ encInt .i64 r, { refs := rest, pushed := h.pushed ++ [(hv, r)] })
   | .wrap t, v, h => encode t v h
   | .ref t, v, h => encode t v h
   | .table hash ents tys, .list vs, h =>
@@ -372,6 +379,40 @@ def encEntries : List (Nat × Bool) → List Ty → List Val → HChan → Excep
   | _, _, _, _ => .error .debugError
 end
 
+/-! ### Well-formed schemas
+
+The explicit side conditions the theorems need: `Optional<T>` / `Result<E,T>` payloads must
+not themselves start with NIL / ERR (K1: the format cannot tell them apart), table ids are
+distinct (a `static_assert` in table.h), counts that are compile-time constants fit their
+wire fields. -/
+
+def idsDistinct : List (Nat × Bool) → Bool
+  | [] => true
+  | (i, _) :: es => es.all (fun e => e.1 != i) && idsDistinct es
+
+mutual
+def Ty.wf : Ty → Bool
+  | .bool => true
+  | .int _ _ => true
+  | .float _ => true
+  | .str _ cb => 0 < cb
+  | .seq _ e => e.wf
+  | .prod k ts => wfL ts && ts.length < 2 ^ 64 && (k != .pair || ts.length == 2)
+  | .map _ k v => k.wf && v.wf
+  | .opt t => t.wf && !matchP t 0xbe
+  | .result _ _ t => t.wf && !matchP t 0xb6
+  | .variant ts => wfL ts && ts.length ≤ 2 ^ 31
+  | .handle _ ht tk => tk.inRange ht
+  | .wrap t => t.wf
+  | .ref t => t.wf
+  | .table hash ents tys =>
+    wfL tys && hash < 2 ^ 64 && ents.length == tys.length && idsDistinct ents &&
+      ents.all (fun e => e.1 < 2 ^ 64) && tys.length < 2 ^ 64
+def wfL : List Ty → Bool
+  | [] => true
+  | t :: ts => t.wf && wfL ts
+end
+
 /-! ### Well-typed values -/
 
 def unitOk (cb : Nat) : Val → Bool
@@ -391,18 +432,18 @@ def valid : Ty → Val → Bool
   | .bool, .int i => i == 0 || i == 1
   | .int k _, .int i => k.inRange i
   | .float w, .int i => 0 ≤ i && i < (2 ^ (if w then 64 else 32) : Nat)
-  | .str _ cb, .list vs => allP (unitOk cb) vs
+  | .str _ cb, .list vs => allP (unitOk cb) vs && vs.length * cb < 2 ^ 64
   | .seq f e, .list vs =>
     (match f with
      | .vector => true
      | .array n | .carray n => vs.length == n
      | .lbuf cap sk unb => (unb || vs.length ≤ cap) && ((vs.length : Int) ≤ sk.maxVal)) &&
-    allP (valid e) vs
+    allP (valid e) vs && vs.length * e.width < 2 ^ 64
   | .prod _ ts, .list vs => validProd ts vs
   | .map _ k v, .list kvs =>
     allP (fun kv => match kv with
       | .list [a, b] => valid k a && valid v b
-      | _ => false) kvs && keysDistinct kvs
+      | _ => false) kvs && keysDistinct kvs && kvs.length < 2 ^ 64
   | .opt _, .nil => true
   | .opt t, .tag 1 v => valid t v
   | .result _ ek _, .tag 0 (.int e) => ek.inRange e
@@ -426,7 +467,7 @@ def validEntries : List (Nat × Bool) → List Ty → List Val → Bool
   | (_, del) :: es, t :: ts, v :: vs =>
     (match v with
      | .nil => true
-     | .tag 1 x => !del && valid t x
+     | .tag 1 x => !del && valid t x && size t x < 2 ^ 64
      | _ => false) && validEntries es ts vs
   | _, _, _ => false
 end
